@@ -71,6 +71,7 @@ func genConfig(t *rapid.T, p *Profile) HConfig {
 	c.DirStyle = pick(t, []int{0, 0, 0, 1, 2, 3}, "dir_style")
 	c.WallClock = !p.RelTime && c.MonoTimes && uni(t, 6, "wall_clock") == 5
 	c.SubMicro = uni(t, 5, "sub_micro") == 4
+	c.LongKeys = !p.SmallKeys && uni(t, 5, "long_keys") == 4
 	c.SmallKeys = p.SmallKeys
 	c.RelTime = p.RelTime
 	return c
@@ -139,7 +140,7 @@ func (e *Env) genMsg(t *rapid.T, lastTS *int64) MsgIn {
 	if k := pick(t, keys, "key"); k != nil {
 		in.K = HexBytes(append([]byte{}, k...))
 	}
-	if !e.Cfg.SmallKeys && uni(t, 40, "long_key") == 39 {
+	if e.Cfg.LongKeys && uni(t, 12, "long_key") == 11 {
 		in.K = HexBytes(append([]byte{}, pick(t, longKeys, "which")...))
 		e.St.Inc("messages_with_long_key")
 	}
